@@ -16,7 +16,8 @@ def main():
     allp = '--all' in args
     names = [a for a in args if not a.startswith('--')]
     dirs = sorted(glob.glob('/verif/seeded/C*-*'))
-    resf = '/verif/seeded/results.json'
+    seed = os.environ.get('VERIF_SEED')
+    resf = '/verif/seeded/results.json' if not seed else f'/verif/seeded/results_seed{seed}.json'
     results = json.load(open(resf)) if os.path.exists(resf) else {}
     assert sh('git -C /repo status --porcelain').stdout.strip() == '', '/repo is not clean'
     for d in dirs:
